@@ -796,11 +796,104 @@ Proof.
   cbn [safe]. split; [destruct G; constructor; auto|exact B].
 Qed.
 
+(* ---- update_from_balance_snapshot / reset ---- *)
+Definition AmtKey (w : wallet) : Prop :=
+  forall k x, mget k (w_slips w) = Some x -> ws_amt x = k_amt k.
+
+Lemma snap_insert_safe : forall dbg w s,
+  InvD dbg w /\ AmtKey w -> s_amt s < W64 -> s_amt s = k_amt (s_key s) ->
+  safe (fun w' => InvD dbg w' /\ AmtKey w') (snap_insert dbg w s).
+Proof.
+  intros dbg w s [[G B] AK] Hamt Hkamt. unfold snap_insert.
+  set (k := s_key s) in *.
+  destruct (key_eqb k zero_key); [cbn; discriminate|].
+  set (x := mkWS k (s_amt s) (s_bid s) (s_txo s) true (s_idx s) false (s_ty s)).
+  assert (Hget : forall k' y, mget k' (mset k x (w_slips w)) = Some y ->
+                              (k' = k /\ y = x) \/ (k' <> k /\ mget k' (w_slips w) = Some y)).
+  { intros k' y. destruct (key_eq_dec k' k) as [->|Hne].
+    - rewrite mget_mset_same. intros H; inversion H; auto.
+    - rewrite mget_mset_other by auto. auto. }
+  assert (Hkey : forall k' y, mget k' (mset k x (w_slips w)) = Some y -> ws_key y = k').
+  { intros k' y H. apply Hget in H as [[-> ->]|[_ H]]; [reflexivity|apply (ig_key w G); auto]. }
+  assert (Hu : forall k' y, mget k' (mset k x (w_slips w)) = Some y -> ws_amt y < W64).
+  { intros k' y H. apply Hget in H as [[-> ->]|[_ H]]; [exact Hamt|eapply (ig_u64 w G); eauto]. }
+  assert (HAK : forall k' y, mget k' (mset k x (w_slips w)) = Some y -> ws_amt y = k_amt k').
+  { intros k' y H. apply Hget in H as [[-> ->]|[_ H]]; [exact Hkamt|apply AK; auto]. }
+  destruct (mhas k (w_slips w)) eqn:Hhas.
+  - apply mhas_true in Hhas as [x0 Hx0].
+    assert (Hamt_same : forall k', amt_of (mset k x (w_slips w)) k' = amt_of (w_slips w) k').
+    { intros k'. destruct (key_eq_dec k' k) as [->|Hne].
+      - rewrite amt_of_mset_same. unfold amt_of. rewrite Hx0. cbn [ws_amt x]. rewrite (AK k x0 Hx0). exact Hkamt.
+      - apply amt_of_mset_other; auto. }
+    assert (Hsum : sum_keys (mset k x (w_slips w)) (w_unspent w) = sum_unspent w).
+    { apply sum_keys_ext. intros; apply Hamt_same. }
+    cbn [safe]. split; [split; [constructor; cbn [w_unspent w_slips w_balance]|]|exact HAK].
+    + apply G.
+    + intros k' Hin. apply mhas_true. destruct (key_eq_dec k' k) as [->|Hne].
+      * rewrite mget_mset_same; eauto.
+      * rewrite mget_mset_other by auto. apply mhas_true, (ig_sub w G); auto.
+    + exact Hkey.
+    + exact Hu.
+    + unfold sum_unspent; cbn [w_unspent w_slips]. rewrite Hsum. apply G.
+    + unfold sum_unspent; cbn [w_unspent w_slips]. rewrite Hsum. exact B.
+  - assert (Hnk : ~ In k (w_unspent w)).
+    { intros Hin. apply (ig_sub w G) in Hin. congruence. }
+    assert (Hins : kinsert k (w_unspent w) = k :: w_unspent w).
+    { unfold kinsert. apply kmem_false in Hnk. rewrite Hnk. reflexivity. }
+    assert (Hsum : sum_keys (mset k x (w_slips w)) (k :: w_unspent w) = s_amt s + sum_unspent w).
+    { rewrite sum_keys_cons, amt_of_mset_same, sum_keys_mset_fresh by auto. reflexivity. }
+    pose proof (ig_bal w G) as Hb.
+    destruct (add64 dbg SITE_BAL_ADD (w_balance w) (s_amt s)) as [b| |site] eqn:Ea; cbn [bind safe].
+    + rewrite Hins. split; [split|exact HAK].
+      * constructor; cbn [w_unspent w_slips w_balance].
+        -- constructor; [exact Hnk|apply G].
+        -- intros k' [<-|Hin]; [apply mhas_true; rewrite mget_mset_same; eauto|].
+           apply mhas_true. rewrite mget_mset_other by (intros ->; contradiction).
+           apply mhas_true, (ig_sub w G); auto.
+        -- exact Hkey.
+        -- exact Hu.
+        -- unfold sum_unspent; cbn [w_unspent w_slips]. rewrite Hsum.
+           apply add64_cases in Ea as [[H1 ->]|[_ [H1 ->]]]; w64; lia.
+      * intros ->. unfold sum_unspent; cbn [w_unspent w_slips]. rewrite Hsum.
+        specialize (B eq_refl).
+        apply add64_cases in Ea as [[H1 ->]|[H0 _]]; [|discriminate].
+        rewrite Hb in H1. rewrite N.mod_small in H1 by exact B. lia.
+    + exact I.
+    + apply add64_panic in Ea as [-> _]. discriminate.
+Qed.
+
+Definition snap_ok (l : list slip) : Prop :=
+  forall s, In s l -> s_amt s < W64 /\ s_amt s = k_amt (s_key s).
+
+Lemma update_from_snapshot_safe : forall dbg w l,
+  snap_ok l -> safe (InvD dbg) (update_from_snapshot dbg w l).
+Proof.
+  intros dbg w l Hl. unfold update_from_snapshot.
+  apply (safe_impl (fun w' => InvD dbg w' /\ AmtKey w')); [|intros a [Ha _]; exact Ha].
+  apply fold_res_safe.
+  - intros a s Ha Hin. destruct (Hl s Hin). apply snap_insert_safe; auto.
+  - split; [split|].
+    + constructor; cbn [w_unspent w_slips w_balance].
+      * constructor.
+      * intros k [].
+      * intros k x H; discriminate.
+      * intros k x H; discriminate.
+      * reflexivity.
+    + intros _. reflexivity.
+    + intros k x H; discriminate.
+Qed.
+
+Lemma reset_InvD : forall dbg w, InvD dbg (reset w).
+Proof.
+  intros. split; [constructor; cbn; try constructor; try tauto; try discriminate|intros; reflexivity].
+Qed.
+
 (* ---- operations and runs ---- *)
 Definition op_u64 (o : op) : Prop :=
   match o with
   | OAddSlip _ _ s _ => s_amt s < W64
   | OWind b _ | OUnwind b _ => block_u64 b
+  | OSnapshot l => snap_ok l
   | _ => True
   end.
 
@@ -821,6 +914,8 @@ Proof.
     apply andb_true_iff in E as [_ E]. apply enumerates_spec in E as (E1 & E2 & _).
     eapply safe_bind; [apply create_staking_safe; eauto|]. intros a Ha; exact Ha.
   - eapply safe_bind; [apply add_to_pending_safe; eauto|]. intros a Ha; exact Ha.
+  - eapply safe_bind; [apply update_from_snapshot_safe; eauto|]. intros a Ha; exact Ha.
+  - cbn [safe fst]. apply reset_InvD.
 Qed.
 
 Definition ops_u64 (ops : list op) : Prop := forall o, In o ops -> op_u64 o.
